@@ -85,6 +85,52 @@ func (s *streamChecker) sendWithRefusedWrite(msg []byte, accept int) {
 	s.n++
 }
 
+// sendWithReadWhilePending writes one record in steps - WriteMessage, a flush
+// over a transport that times out after `accept` bytes (accept < 0: no flush
+// attempt yet) - and, while that record is pending, has the writing party
+// read `reads` records of the other direction (its reader goroutine runs
+// while the writer is stuck); then the record is flushed and the peer reads
+// it. The two directions of a machine are independent: what is read in
+// between must not change what is still to be sent.
+func (s *streamChecker) sendWithReadWhilePending(back *streamChecker, msg []byte, accept, reads int) {
+	if s.failed || back.failed {
+		return
+	}
+	if err := s.w.WriteMessage(msg); err != nil {
+		s.fail("write-fails", err.Error())
+		return
+	}
+	snk := &sink{budgets: []int{1 << 30}}
+	if accept >= 0 {
+		snk = &sink{budgets: []int{accept}}
+		if _, err := s.w.Flush(snk); err == nil {
+			s.fail("partial-flush", "the scripted transport timeout did not surface")
+			return
+		}
+	}
+	for i := 0; i < reads; i++ {
+		back.send(msgOf('b', i, 7+i))
+	}
+	if back.failed {
+		return
+	}
+	for k := 0; k < 4; k++ {
+		if _, err := s.w.Flush(snk); err == nil {
+			break
+		} else if k == 3 {
+			s.fail("flush-fails", err.Error())
+			return
+		}
+	}
+	got, err := s.rd.ReadMessage(bytes.NewReader(snk.buf.Bytes()))
+	if err != nil || !bytes.Equal(got, msg) {
+		s.fail("pending-record-damaged-by-read",
+			fmt.Sprintf("a record was pending (transport accepted %d bytes) while the writing party read %d record(s) of the other direction; flushed afterwards it does not decrypt at the peer: err=%v", accept, reads, err))
+		return
+	}
+	s.n++
+}
+
 // send writes one record and has the peer read it.
 func (s *streamChecker) send(msg []byte) {
 	if s.failed {
@@ -314,12 +360,43 @@ func TestC08(t *testing.T) {
 			}
 		}
 	}
+	// a record of the other direction read while a record is pending
+	// (reader and writer of a connection are different goroutines), at
+	// several positions relative to a rotation boundary, both parties
+	for _, c := range cfgs {
+		for _, pos := range []int{0, perRot - 1} {
+			for _, accept := range []int{-1, 0, 5, 17, 18, 20, 30} {
+				for _, reads := range []int{1, 2} {
+					for _, who := range []int{0, 1} {
+						a, b := fresh(c)
+						if who == 1 {
+							a, b = b, a
+						}
+						lab := fmt.Sprintf("%v party %d reads %d record(s) while its record is pending after %d records, transport accepted %d bytes", c, who, reads, pos, accept)
+						ab := newStreamChecker(r, lab, a, b, markers)
+						ba := newStreamChecker(r, lab+" (other direction)", b, a, markers)
+						for i := 0; i < pos; i++ {
+							ab.send(msgOf('p', i, 9))
+							ba.send(msgOf('P', i, 9))
+						}
+						ab.sendWithReadWhilePending(ba, msgOf('q', 0, 9), accept, reads)
+						for i := 0; i < 3; i++ {
+							ab.send(msgOf('r', i, 9))
+							ba.send(msgOf('R', i, 9))
+						}
+						records += int64(ab.n + ba.n)
+						patterns++
+					}
+				}
+			}
+		}
+	}
 	r.Sample(map[string]any{"pattern": "equal plaintexts, both directions alternating", "records_per_direction": rotations*perRot + 100, "rotations_crossed": rotations})
 	r.Sample(map[string]any{"pattern": "interleaving 00101101 of 4+4 records with both directions 2 records before a rotation"})
 	r.Set("evaluations", records)
 	r.Set("distinct_nontrivial", int64(patterns))
 	r.Set("records_checked", records)
-	r.Set("rule", "per session (XX v2, KK, XX v0 thorough): streams of equal plaintexts across 8 (quick) / 24 (thorough) key rotations in both directions alternating, checked after every record; sizes 0/1/65535 placed within two records of every rotation boundary; all 70 interleavings of 4+4 records with both directions positioned two records before a rotation; block patterns of 1, 499, 500, 501 records. Oracle after every record: reader output = writer input, (key, nonce) pairs of both encryptions never reused, header and body ciphertexts never repeat, key changes exactly when the nonce reaches the interval, writer and reader cipher states identical, no 8-byte window of plaintext or auth payload on the wire. evaluations = records checked; distinct_nontrivial = stream patterns")
+	r.Set("rule", "per session (XX v2, KK, XX v0 thorough): streams of equal plaintexts across 8 (quick) / 24 (thorough) key rotations in both directions alternating, checked after every record; sizes 0/1/65535 placed within two records of every rotation boundary; all 70 interleavings of 4+4 records with both directions positioned two records before a rotation; block patterns of 1, 499, 500, 501 records; a write refused while a record is pending; records of the other direction read while a record is pending (transport accepted -1(no flush yet)/0/5/17/18/20/30 bytes). Oracle after every record: reader output = writer input, (key, nonce) pairs of both encryptions never reused, header and body ciphertexts never repeat, key changes exactly when the nonce reaches the interval, writer and reader cipher states identical, no 8-byte window of plaintext or auth payload on the wire. evaluations = records checked; distinct_nontrivial = stream patterns")
 	r.Set("exhaustive", true)
 	_ = evals
 	exitCode = r.Finish()
